@@ -89,6 +89,9 @@ func runC19(seed int64, tier string, sc *Script) map[string]any {
 								for k := 0; k < layers; k++ {
 									opts.Layers = append(opts.Layers, layer)
 								}
+								if layers == 0 && created != "absent" {
+									opts.Layers = []ocispec.Descriptor{} // no layers, given as an empty (not nil) list
+								}
 								if subject == 1 {
 									opts.Subject = &subjectDesc
 								}
